@@ -529,13 +529,22 @@ LEVELS = {"C06": "fault_enumeration"}
 
 
 def run_check(prop, tier):
+    if prop == "C10":
+        import c10
+
+        return c10.run(tier)
     if prop in SIM_CHECKS:
         return run_sim_check(prop, tier, level=LEVELS.get(prop, "exploration"))
     raise HarnessError(f"no check registered for {prop}")
 
 
 def replay(prop, path):
-    rep = replay_file(path)
+    if prop == "C10":
+        import c10
+
+        rep = c10.replay_file(path)
+    else:
+        rep = replay_file(path)
     print(json.dumps(rep))
     if rep.get("reproduced"):
         print(f"VIOLATION property={prop} replay={path}")
